@@ -109,6 +109,52 @@ func ruleJSONKinds(r *core.Reporter) {
 		_, g := ir.GuardedBy(fn, ir.Entry(fn), appendURL, true, func(a ir.Atom) bool { return ir.BoolCallAtom(a, pkgExtractor+".isValidURL") != nil })
 		okStr = g
 	}
+	// embedded JSON at any depth: inside the string arm, the recursion on the decoded value is skipped only when the
+	// string is a URL, does not look like JSON, or does not decode — no other condition (depth flag, size, …)
+	if okStr {
+		var strCall *ssa.Call
+		for _, c := range recs {
+			if u, isU := c.Call.Args[0].(*ssa.UnOp); isU && u.Op == token.MUL {
+				if _, isAl := u.X.(*ssa.Alloc); isAl {
+					strCall = c
+				}
+			}
+		}
+		var armStart *ssa.BasicBlock
+		if ta := arms["string"]; ta != nil {
+			for _, ii := range ir.Ifs(fn) {
+				if e, isE := ii.Atom.V.(*ssa.Extract); isE && e.Tuple == ssa.Value(ta) && e.Index == 1 {
+					armStart = ii.If.Block().Succs[ii.EdgeWhen(true)]
+				}
+			}
+		}
+		if strCall != nil && armStart != nil {
+			skip := map[*ssa.BasicBlock]int{}
+			for _, ii := range ir.Ifs(fn) {
+				switch {
+				case ir.BoolCallAtom(ii.Atom, pkgExtractor+".isValidURL") != nil:
+					skip[ii.If.Block()] = ii.EdgeWhen(true)
+				case ir.BoolCallAtom(ii.Atom, pkgExtractor+".isLikelyJSON") != nil:
+					skip[ii.If.Block()] = ii.EdgeWhen(false)
+				case ii.Atom.V == nil && ii.Atom.Op == token.EQL && (ir.IsNilConst(ii.Atom.X) || ir.IsNilConst(ii.Atom.Y)):
+					if c, isC := ir.Strip(ii.Atom.X).(*ssa.Call); isC && ir.IsCallTo(c, "encoding/json.Unmarshal") {
+						skip[ii.If.Block()] = ii.EdgeWhen(false)
+					}
+					if c, isC := ir.Strip(ii.Atom.Y).(*ssa.Call); isC && ir.IsCallTo(c, "encoding/json.Unmarshal") {
+						skip[ii.If.Block()] = ii.EdgeWhen(false)
+					}
+				}
+			}
+			if ret, bad := ir.PathExists([]ir.Pt{{B: armStart, I: 0}}, ir.Opts{Stop: func(in ssa.Instruction) bool { return in == ssa.Instruction(strCall) }, EdgeOK: func(b *ssa.BasicBlock, sidx int) bool {
+				e, has := skip[b]
+				return !has || e != sidx
+			}}, ir.IsExit); bad {
+				r.Violated("findURLs/embedded-any-depth", p.InstrPos(ret), "a string that is not a URL, looks like JSON and decodes can still be skipped (an extra condition guards the embedded-JSON recursion): URLs in JSON embedded below that point are lost")
+			} else {
+				r.Held("findURLs/embedded-any-depth", 1, "the embedded-JSON recursion is skipped only for URLs, non-JSON-looking strings and decode errors")
+			}
+		}
+	}
 	if okStr {
 		r.Held("findURLs/string", 2, "URL strings are collected; other strings are tried as embedded JSON")
 	} else {
